@@ -1034,6 +1034,36 @@ class Exec:
             if st.finalbody:
                 self.exec_block(st.finalbody, fr)
 
+    def st_With(self, st, fr):
+        """with E [as v], ...: body  -  E.__enter__() on entry; E.__exit__(None, None, None) when the body ends, returns, breaks or
+        continues; E.__exit__(type, value, None) when it raises (the exception goes on unless __exit__ answers a true value)"""
+        mgrs = []
+        for item in st.items:
+            ctx = self.eval(item.context_expr, fr)
+            entered = self.call(self.world.getattr(self, ctx, "__enter__"), [], {}, st)
+            if item.optional_vars is not None:
+                self.assign(item.optional_vars, entered, fr)
+            mgrs.append(ctx)
+
+        def leave(exc):
+            swallowed = False
+            for ctx in reversed(mgrs):
+                a = [None, None, None] if exc is None or swallowed else [ExcClass(exc.cls), exc, None]
+                r = self.call(self.world.getattr(self, ctx, "__exit__"), a, {}, st)
+                if exc is not None and not swallowed and r is not None and self.decide(self.truth(r)):
+                    swallowed = True
+            return swallowed
+        try:
+            self.exec_block(st.body, fr)
+        except PyRaise as pr:
+            if not leave(pr.exc):
+                raise
+            return
+        except (_Return, _Break, _Continue):
+            leave(None)
+            raise
+        leave(None)
+
     def st_While(self, st, fr):
         inv = self.world.loop_contract(self, fr, st)
         if inv is not None:
@@ -1100,9 +1130,6 @@ class Exec:
             except _Continue:
                 continue
         self.exec_block(st.orelse, fr)
-
-    def st_With(self, st, fr):
-        raise Unsupported("with statement")
 
     def st_Global(self, st, fr):
         raise Unsupported("global")
